@@ -40,6 +40,27 @@ Fixpoint nodes (o : op) : list op :=
   | OSubbuild _ _ _ subs _ _ _ => o :: flat_map nodes subs
   end.
 
+(* the targets that an accepted validation leaves started in the overlay: the build_file records
+   that succeeded (and did not fail in setup) *)
+Fixpoint adp (o : op) : list path :=
+  match o with
+  | OSimple _ _ _ => []
+  | OBuildFile p _ _ _ _ subs _ _ ra sf => (if ra || sf then [] else [p]) ++ flat_map adp subs
+  | OSubbuild _ _ _ subs _ _ _ => flat_map adp subs
+  end.
+
+Lemma adp_regp : forall o t, In t (adp o) -> In t (regp o).
+Proof.
+  induction o as [q r e|p c f a k subs r cr ra sf IH|f a k subs r ra sf IH] using op_ind'; intros t Ht; cbn [adp regp] in *.
+  - destruct Ht.
+  - apply in_app_iff in Ht. apply in_app_iff. destruct Ht as [Ht|Ht].
+    + left. destruct ra, sf; cbn in Ht; try destruct Ht. left. assumption. destruct H.
+    + right. apply in_flat_map in Ht. destruct Ht as [sub [Hs Ht]]. rewrite Forall_forall in IH.
+      apply in_flat_map. exists sub. split; [exact Hs|apply (IH sub Hs t Ht)].
+  - apply in_flat_map in Ht. destruct Ht as [sub [Hs Ht]]. rewrite Forall_forall in IH.
+    apply in_flat_map. exists sub. split; [exact Hs|apply (IH sub Hs t Ht)].
+Qed.
+
 Lemma nodes_sub : forall x subs sub, In sub subs -> In x (nodes sub) -> In x (flat_map nodes subs).
 Proof. intros x subs sub H1 H2. apply in_flat_map. exists sub. auto. Qed.
 
@@ -124,13 +145,14 @@ Section Replay.
   (* the targets of the tree are new to the replay and are not the target being looked up *)
   Definition newt (Tl : list path) (ts : list path) : Prop := forall t, In t ts -> ~ In t Tl /\ Some t <> p0.
 
-  Definition post1 (St Tl : list path) (cf : cfiles) (r : rstate') (ts : list path) (kr : option rstate')
+  Definition post1 (St Tl : list path) (cf : cfiles) (r : rstate') (ts ads : list path) (kr : option rstate')
              (w' : world) (res : (bool * cfiles) + exn) : Prop :=
     good w0 w' /\ exists b cf', res = inl (b, cf') /\
       if b then
         exists r' Tl' M', kr = Some r' /\ RRel St Tl' cf' r' M' /\
           (forall x, mem_path x (cf_files cf') = true -> mem_path x (cf_files cf) = true \/ In x ts) /\
-          (forall t, In t Tl' -> In t Tl \/ In t ts) /\ (forall t, In t Tl -> In t Tl')
+          (forall t, In t Tl' -> In t Tl \/ In t ts) /\ (forall t, In t Tl -> In t Tl') /\
+          (forall t, In t ads -> In t Tl')
       else kr = None.
 
   (* ---------------------------------------------------------------- lists *)
@@ -138,16 +160,16 @@ Section Replay.
     Forall (fun o => forall St Tl cf r M w w' res,
               rec_ok hk St o = true -> sem_ok o -> NoDup (regp o) -> newt Tl (regp o) ->
               good w0 w -> RRel St Tl cf r M -> is_op_cached o cf w = (w', res) ->
-              post1 St Tl cf r (regp o) (kreplay s o r) w' res) subs ->
+              post1 St Tl cf r (regp o) (adp o) (kreplay s o r) w' res) subs ->
     forall St Tl cf r M w w' res,
       forallb (rec_ok hk St) subs = true -> sem_okl subs -> NoDup (flat_map regp subs) -> newt Tl (flat_map regp subs) ->
       good w0 w -> RRel St Tl cf r M -> GO subs cf w = (w', res) ->
-      post1 St Tl cf r (flat_map regp subs) (kreplay_list s subs r) w' res.
+      post1 St Tl cf r (flat_map regp subs) (flat_map adp subs) (kreplay_list s subs r) w' res.
   Proof.
     intros subs H. induction H as [|x rest Hx Hrest IH]; intros St Tl cf r M w w' res Hok Hsem Hnd Hnew G HR Hgo.
     - cbn [GO] in Hgo. inversion Hgo; subst. split; [exact G|]. exists true, cf. split; [reflexivity|].
       exists r, Tl, M. cbn [kreplay_list flat_map]. split; [reflexivity|]. split; [exact HR|].
-      split; [intros y Hy; left; exact Hy|]. split; [intros t Ht; left; exact Ht|intros t Ht; exact Ht].
+      split; [intros y Hy; left; exact Hy|]. split; [intros t Ht; left; exact Ht|]. split; [intros t Ht; exact Ht|intros t []].
     - cbn [GO] in Hgo. cbn [forallb] in Hok. apply andb_true_iff in Hok. destruct Hok as [Hok1 Hok2].
       cbn [flat_map] in Hnd, Hnew |- *.
       destruct (NoDup_app_parts _ _ Hnd) as (Hnd1 & Hnd2 & Hdisj).
@@ -157,7 +179,7 @@ Section Replay.
       unfold bind in Hgo. destruct (is_op_cached x cf w) as [w1 r1] eqn:E1.
       destruct (Hx St Tl cf r M w w1 r1 Hok1 Hsem1 Hnd1 Hnew1 G HR E1) as (G1 & b1 & cf1 & -> & P1).
       cbn [fst snd] in Hgo. cbn [kreplay_list]. destruct b1.
-      + destruct P1 as (r1' & Tl1 & M1 & K1 & R1 & F1 & T1 & T1').
+      + destruct P1 as (r1' & Tl1 & M1 & K1 & R1 & F1 & T1 & T1' & A1).
         rewrite K1.
         assert (Hnew2: newt Tl1 (flat_map regp rest)).
         { intros t Ht. split; [|apply Hnew; apply in_or_app; right; exact Ht].
@@ -165,13 +187,14 @@ Section Replay.
           destruct (Hnew t (in_or_app _ _ _ (or_intror Ht))) as [Kn _]. exact (Kn K). }
         destruct (IH St Tl1 cf1 r1' M1 w1 w' res Hok2 Hsem2 Hnd2 Hnew2 G1 R1 Hgo) as (G2 & b2 & cf2 & -> & P2).
         split; [exact G2|]. exists b2, cf2. split; [reflexivity|]. destruct b2; [|exact P2].
-        destruct P2 as (r2' & Tl2 & M2 & K2 & R2 & F2 & T2 & T2').
-        exists r2', Tl2, M2. split; [exact K2|]. split; [exact R2|]. split; [|split].
+        destruct P2 as (r2' & Tl2 & M2 & K2 & R2 & F2 & T2 & T2' & A2).
+        exists r2', Tl2, M2. split; [exact K2|]. split; [exact R2|]. split; [|split; [|split]].
         * intros y Hy. destruct (F2 y Hy) as [K|K]; [|right; apply in_or_app; right; exact K].
           destruct (F1 y K) as [K'|K']; [left; exact K'|right; apply in_or_app; left; exact K'].
         * intros t Ht. destruct (T2 t Ht) as [K|K]; [|right; apply in_or_app; right; exact K].
           destruct (T1 t K) as [K'|K']; [left; exact K'|right; apply in_or_app; left; exact K'].
         * intros t Ht. apply T2'. apply T1'. exact Ht.
+        * intros t Ht. cbn [flat_map] in Ht. apply in_app_iff in Ht. destruct Ht as [Ht|Ht]; [apply T2'; apply A1; exact Ht|apply A2; exact Ht].
       + inversion Hgo; subst. split; [exact G1|]. exists false, cf1. split; [reflexivity|]. rewrite P1. reflexivity.
   Qed.
 
@@ -192,7 +215,7 @@ Section Replay.
   Theorem replay_corr : forall o St Tl cf r M w w' res,
     rec_ok hk St o = true -> sem_ok o -> NoDup (regp o) -> newt Tl (regp o) ->
     good w0 w -> RRel St Tl cf r M -> is_op_cached o cf w = (w', res) ->
-    post1 St Tl cf r (regp o) (kreplay s o r) w' res.
+    post1 St Tl cf r (regp o) (adp o) (kreplay s o r) w' res.
   Proof.
     induction o as [q rt ex|p c f a k subs rt cr ra sf IH|f a k subs rt ra sf IH] using op_ind';
       intros St Tl cf r M w w' res Hok Hsem Hnd Hnew G HR H; cbn [is_op_cached] in H; cbn [rec_ok] in Hok.
@@ -211,7 +234,7 @@ Section Replay.
       split; [eapply good_trans; eassumption|]. eexists _, cf. split; [reflexivity|].
       rewrite kreplay_simple_verdict. destruct (simple_verdict (rp_fs r) q rt ex); [|reflexivity].
       exists r, Tl, M. split; [reflexivity|]. split; [exact HR|].
-      split; [intros y Hy; left; exact Hy|]. split; [intros t Ht; left; exact Ht|intros t Ht; exact Ht].
+      split; [intros y Hy; left; exact Hy|]. split; [intros t Ht; left; exact Ht|]. split; [intros t Ht; exact Ht|intros t []].
     - (* a nested build_file record *)
       pose proof (go_corr subs IH) as Hgo. fold GO in H.
       repeat (apply andb_true_iff in Hok; destruct Hok as [Hok ?]).
@@ -312,7 +335,7 @@ Section Replay.
       inversion Err; subst rr. clear Err. cbn [fst snd] in H.
       destruct b1; cbn [negb] in H.
       2:{ inversion H; subst. split; [exact G4|]. exists false, cf1. split; [reflexivity|]. rewrite P1. reflexivity. }
-      destruct P1 as (r2 & Tl2 & M2 & K2 & R2 & F2 & T2 & T2'). rewrite K2.
+      destruct P1 as (r2 & Tl2 & M2 & K2 & R2 & F2 & T2 & T2' & A2). rewrite K2.
       assert (Hin2: In p Tl2) by (apply T2'; left; reflexivity).
       assert (Hnb2: existsb (is_ancestor p) Tl2 = false).
       { destruct (existsb (is_ancestor p) Tl2) eqn:E; [|reflexivity]. exfalso.
@@ -334,23 +357,26 @@ Section Replay.
         destruct (error_rel W w0 s HS HB p0 St Tl2 cf1 r2 M2 n d HK R2 Hin2 Hnf2 Hnb2 Hnneed) as (cf' & M' & Ecf & EF & R3).
         fold p in Ecf, R3. rewrite Ecf in H. inversion H; subst.
         split; [exact G4|]. exists true, cf'. split; [reflexivity|].
-        exists (rp_prune r2 p), (rm1 p Tl2), M'. split; [reflexivity|]. split; [exact R3|]. split; [|split].
+        exists (rp_prune r2 p), (rm1 p Tl2), M'. split; [reflexivity|]. split; [exact R3|]. split; [|split; [|split]].
         * intros x Hx. rewrite EF in Hx. destruct (F2 x Hx) as [K|K]; [left; rewrite cf_started_files in K; exact K|right; right; exact K].
         * intros t Ht. pose proof (rm1_in _ _ _ Ht) as Ht2.
           destruct (T2 t Ht2) as [[<-|K]|K]; [|left; exact K|right; right; exact K].
           exfalso. exact (notin_rm1 p Tl2 (rr_nodup _ _ _ _ _ _ _ _ R2) Ht).
         * intros t Ht. apply rm1_other; [apply T2'; right; exact Ht|]. intro; subst t. exact (Hnin Ht).
+        * intros t Ht. cbn [adp orb app] in Ht. apply rm1_other; [apply A2; exact Ht|]. intro; subst t. apply Hpn.
+          apply in_flat_map in Ht. destruct Ht as [sub [Hs Ht]]. apply in_flat_map. exists sub. split; [exact Hs|apply adp_regp; exact Ht].
       + (* the record succeeded: finished_building_file / the file is put back *)
         destruct (Hfile eq_refl) as [g Hg]. rewrite Ephys, Hg.
         inversion H; subst.
         pose proof (finish_rel W w0 s HWcl St Tl2 cf1 r2 M2 p g R2 Hin2 Hnb2 ltac:(discriminate) Hpok Hplen Hg) as R3.
         split; [exact G4|]. exists true, (cf_finished cf1 p). split; [reflexivity|].
-        exists (rp_put r2 p g), Tl2, M2. split; [reflexivity|]. split; [exact R3|]. split; [|split].
+        exists (rp_put r2 p g), Tl2, M2. split; [reflexivity|]. split; [exact R3|]. split; [|split; [|split]].
         * intros x Hx. rewrite cf_finished_files in Hx. apply orb_true_iff in Hx. destruct Hx as [Hx|Hx].
           -- apply path_eqb_eq in Hx. subst x. right. left. reflexivity.
           -- destruct (F2 x Hx) as [K|K]; [left; rewrite cf_started_files in K; exact K|right; right; exact K].
         * intros t Ht. destruct (T2 t Ht) as [[<-|K]|K]; [right; left; reflexivity|left; exact K|right; right; exact K].
         * intros t Ht. apply T2'. right. exact Ht.
+        * intros t Ht. cbn [adp orb app] in Ht. destruct Ht as [<-|Ht]; [exact Hin2|apply A2; exact Ht].
     - (* a nested subbuild record *)
       pose proof (go_corr subs IH) as Hgo. fold GO in H.
       destruct (good_fields _ _ G) as (Ff & Fn & Fo & Fc).
@@ -364,7 +390,7 @@ Section Replay.
       rewrite (rr_clS _ _ _ _ _ _ _ _ HR), (s3_claimsS _ _ _ HS).
       destruct (cache_has_subbuild (w_new w0) (subbuild_key f a k)).
       { inversion H; subst. split; [exact G|]. exists false, cf. split; reflexivity. }
-      cbn [regp] in Hnd, Hnew |- *.
+      cbn [regp adp] in Hnd, Hnew |- *.
       assert (Hsem': sem_okl subs) by (intros y Hy; apply Hsem; cbn [nodes]; right; exact Hy).
       apply (Hgo St Tl cf r M w w' res Hok Hsem' Hnd Hnew G HR H).
   Qed.
@@ -372,7 +398,7 @@ Section Replay.
   Corollary replay_list_corr : forall subs St Tl cf r M w w' res,
     forallb (rec_ok hk St) subs = true -> sem_okl subs -> NoDup (flat_map regp subs) -> newt Tl (flat_map regp subs) ->
     good w0 w -> RRel St Tl cf r M -> are_subs_cached subs cf w = (w', res) ->
-    post1 St Tl cf r (flat_map regp subs) (kreplay_list s subs r) w' res.
+    post1 St Tl cf r (flat_map regp subs) (flat_map adp subs) (kreplay_list s subs r) w' res.
   Proof.
     intros subs St Tl cf r M w w' res H1 H2 H3 H4 G HR H. rewrite are_subs_cached_GO in H.
     apply (go_corr subs) with (M := M) (w := w); try assumption.
